@@ -15,6 +15,8 @@ mod c24;
 mod c25;
 mod c34;
 mod c10;
+mod c42;
+mod c43;
 mod c05;
 mod c26;
 mod c27;
@@ -83,6 +85,8 @@ fn main() {
         "C25" => c25::main(tier, replay.clone()),
         "C34" => c34::main(tier, replay.clone()),
         "C10" => c10::main(tier, replay.clone()),
+        "C42" => c42::main(tier, replay.clone()),
+        "C43" => c43::main(tier, replay.clone()),
         "C05" => c05::main(tier, replay.clone()),
         "C26" => c26::main(tier, replay.clone()),
         "C27" => c27::main(tier, replay.clone()),
